@@ -17,7 +17,7 @@ META = dict(
     property="C58",
     level="exploration",
     technique="lockstep reference model over generated operation histories (fake endpoint, fake transports, task.Clock): breadth-first complete enumeration of short histories with state hashing over the real service + Hypothesis random long histories",
-    level_text="Every history over the op alphabet (start, stop, whenConnected(None/1/2), attempt ok with prepare ok/raise/deferred, attempt fail, connection lost, prepare Deferred ok/fail, clock advance to the timer / by 0.5, synchronous connect outcome) is enumerated breadth first up to the stated depth, extending only histories that reach a new (real machine state, counters, waiters, transports, timer) fingerprint; random histories up to 40 ops add failure limits up to 3, user cancellation of waiters, service calls made from inside whenConnected/stopService callbacks, and odd clock steps. Exhaustive only to that depth; beyond it sampled.",
+    level_text="Every history over the op alphabet (start, stop, whenConnected(None/1/2), attempt ok with prepare ok/raise/deferred, attempt fail, connection lost, (also with an application protocol whose own connectionLost raises), prepare Deferred ok/fail, clock advance to the timer / by 0.5, synchronous connect outcome) is enumerated breadth first up to the stated depth, extending only histories that reach a new (real machine state, counters, waiters, transports, timer) fingerprint; random histories up to 40 ops add failure limits up to 3, user cancellation of waiters, service calls made from inside whenConnected/stopService callbacks, and odd clock steps. Exhaustive only to that depth; beyond it sampled.",
     level_note="Reference model written from the ClientService/whenConnected/stopService/prepareConnection docstrings; trusted. Readings fixed by the model: a dropped established connection counts as failure #1 for the retry policy; the consecutive-failure count survives stop/start; a rejected (prepareConnection) connection must be closed by the service and its later loss is a non-event; a stopService Deferred may fire while a *rejected* connection is still closing. Histories are truncated (invariants only) after points where the documentation does not determine the behaviour (loss or stop while a prepareConnection Deferred is pending once that no longer raises; service calls made re-entrantly from callbacks). automat, Deferred and task.Clock are trusted.",
     design_ref="§5 C58",
     rule="case = {hook: bool, ops: [...]}; ops that are not applicable in the current harness state are skipped. non-trivial = at least 4 effective ops including a start, a connection outcome and one of stop / loss / whenConnected-pending / retry timer firing; distinct by the effective op list.",
@@ -36,6 +36,10 @@ class _AttemptFailed(Exception):
 
 class _PrepFailed(Exception):
     pass
+
+
+class _AppLostError(Exception):
+    """Raised by the application protocol's own connectionLost."""
 
 
 # --------------------------------------------------------------------------
@@ -100,6 +104,11 @@ class World:
 
         class AppProtocol(Protocol):
             cid = None
+            raise_on_lost = False
+
+            def connectionLost(self, reason):
+                if self.raise_on_lost:
+                    raise _AppLostError()
 
         class AppFactory(Factory):
             protocol = AppProtocol
@@ -194,12 +203,17 @@ class World:
         self.prep = (d, cid)
         return d
 
-    def lose(self, cid):
+    def lose(self, cid, app_raises=False):
         from twisted.python.failure import Failure
         from twisted.internet.error import ConnectionDone
         t = self.transports[cid]
         t.lost = True
-        self.proxies[cid].connectionLost(Failure(ConnectionDone()))
+        if app_raises and self.protocols[cid] is not None:
+            self.protocols[cid].raise_on_lost = True
+        try:
+            self.proxies[cid].connectionLost(Failure(ConnectionDone()))
+        except _AppLostError:
+            pass        # the application's own error may come out; the service must have been told anyway
 
     # -- service calls ---------------------------------------------------------
     def when(self, n, action=None):
@@ -604,7 +618,9 @@ def run_case(ctx, case):
                 elif k == "lose":
                     target = w.not_lost()[op[1]]
                     m.lose(target)
-                    w.lose(target)
+                    w.lose(target, app_raises=len(op) > 2 and op[2] == "raise")
+                    if len(op) > 2:
+                        ctx.count("op lose with a raising application connectionLost")
                 elif k == "adv":
                     now = w.clock.seconds()
                     dt = (w.timer()[0] - now) if op[1] == "next" else float(op[1])
@@ -751,7 +767,7 @@ def run_case(ctx, case):
 
 def _alphabet(hook, wide=False):
     ops = [["start"], ["stop"], ["when", None], ["when", 1], ["when", 2],
-           ["fail"], ["lose", 0], ["adv", "next"], ["adv", 0.5], ["arm", "fail"]]
+           ["fail"], ["lose", 0], ["lose", 0, "raise"], ["adv", "next"], ["adv", 0.5], ["arm", "fail"]]
     if hook:
         ops += [["ok", "ok"], ["ok", "raise"], ["ok", "defer"], ["prep", "ok"], ["prep", "fail"],
                 ["lose", 1], ["arm", "ok", "ok"], ["arm", "ok", "raise"]]
@@ -801,6 +817,7 @@ def _ops_strategy(hook):
         st.builds(lambda n: ["when", n], st.sampled_from([None, None, 1, 1, 2, 3])),
         st.just(["fail"]), st.just(["fail"]),
         st.builds(lambda k: ["lose", k], st.sampled_from([0, 0, 0, 1])),
+        st.builds(lambda k: ["lose", k, "raise"], st.sampled_from([0, 0, 1])),
         st.builds(lambda x: ["adv", x], st.sampled_from(["next", "next", "next", 0.5, 1.0, 3.0, 0.0])),
         st.builds(lambda i: ["wcancel", i], st.integers(0, 4)),
         st.just(["arm", "fail"]),
